@@ -24,6 +24,8 @@ func main() {
 		cmdChain(args)
 	case "streamfn":
 		cmdStreamFn(args)
+	case "params":
+		cmdParams(args)
 	case "denom":
 		cmdDenom(args)
 	default:
